@@ -205,6 +205,26 @@ def run(tier, seed, replay=None):
         err = float((x.full() - ref).norm() / ref.norm()) if list(x.N) == N else float("inf")
         if not (err <= 100 * eps + 1e-9): V.fail("dmrg_cross: accuracy with a sweep budget of %d" % nsw, dict(desc, rel_err=err, ranks=[int(r) for r in x.R]))
         dist["nswp=%d" % nsw] = dist.get("nswp=%d" % nsw, 0) + 1
+    # ---- the documented enrichment size `kick`: 0 (no random enrichment: the two-site step alone adapts the ranks), 1, 4
+    rng_k = random.Random(seed + 41)
+    for j in range(9 if tier == "quick" else 90):
+        N, f0, kind = targets(rng_k, torch)
+        kick_ = [0, 1, 4][j % 3]; eps = rng_k.choice([1e-8, 1e-6])
+        sd = rng_k.randrange(1 << 30); torch.manual_seed(sd)
+        routine = "function_interpolate" if j % 2 and all(n_ >= 2 for n_ in N) else "dmrg_cross"
+        desc = {"routine": routine, "N": N, "target": kind, "eps": eps, "torch_seed": sd, "kick": kick_}
+        try:
+            if routine == "dmrg_cross":
+                x = ip.dmrg_cross(f0, N, eps=eps, nswp=12, kick=kick_)
+                ref = f0(torch.tensor(list(itertools.product(*[range(n_) for n_ in N])), dtype=torch.int64)).reshape(N)
+            else:
+                S_ = sum(torch.meshgrid(*[torch.arange(n_, dtype=torch.float64) for n_ in N], indexing="ij")); c_ = rng_k.choice([2.0, 3.0])
+                x = ip.function_interpolate(lambda t: 1.0 / t, torchtt.TT(c_ + S_), eps, nswp=12, kick=kick_); ref = 1.0 / (c_ + S_)
+        except Exception as ex:
+            V.fail("%s raises %s [kick=%d]" % (routine, type(ex).__name__, kick_), dict(desc, exc=str(ex)[:200])); continue
+        err = float((x.full() - ref).norm() / ref.norm()) if list(x.N) == N else float("inf")
+        if not (err <= 100 * eps + 1e-9): V.fail("%s: accuracy with kick=%d" % (routine, kick_), dict(desc, rel_err=err, ranks=[int(r) for r in x.R]))
+        dist["kick=%d" % kick_] = dist.get("kick=%d" % kick_, 0) + 1
     # ---- function_interpolate: values handed to the function are entries of the argument tensors
     for i in range(n // 2):
         d = rng.choice([2, 3, 4])
